@@ -40,7 +40,10 @@ RULE = ("Each run: a seeded history of 6-40 top-level operations on 1-2 "
 ASSUMPTIONS = [
   "one live subscription per (handler, source, event type) at a time (a "
   "subscribe that would create a second one is skipped), so that every "
-  "invocation is attributable to exactly one subscription",
+  "invocation is attributable to exactly one subscription; 8 % of the runs "
+  "are of a second, simpler kind instead (passive handlers, no "
+  "re-entrancy, a plain list model) in which the same handler is "
+  "subscribed to one type any number of times",
   "where the statement is silent both behaviours are accepted: handlers "
   "subscribed during a delivery (0 or 1 invocation in it), handlers "
   "unsubscribed by another handler or fired-once in a nested delivery "
@@ -79,7 +82,7 @@ REAL = ["pox.lib.revent.revent EventMixin (raiseEvent, raiseEventNoErrors, "
 STUBBED = ["event sources, event classes, sinks and handlers (generated)"]
 EXPECT_PROBES = ["reentrant_subscribe", "reentrant_subscribe_prio",
                  "reentrant_unsubscribe", "reentrant_raise", "halt",
-                 "halt_via_event_flag",
+                 "halt_via_event_flag", "typed_removal_of_duplicates",
                  "weak_owner_died", "weak_owner_died_during_delivery",
                  "once_fired", "noerrors_exception",
                  "plain_exception", "undeclared_rejected", "ret_remove",
@@ -1213,3 +1216,184 @@ def minimise_hint(plan):
           p["steps"][i][k] = dv
           out.append(p)
   return out
+
+
+# ---------------------------------------------------------------------------
+# duplicate subscriptions (a separate, simpler world)
+#
+# The main world keeps one live subscription per (handler, source, type) so
+# that every invocation is attributable.  Here the same handler may be
+# subscribed to one type any number of times, with passive handlers, no
+# re-entrancy and a list model: every entry is invoked once per raise, in
+# priority / subscription order; removal by handler takes all of a handler's
+# entries (of that type when a type is given), removal by id exactly one.
+# ---------------------------------------------------------------------------
+
+def _gen_dup(seed):
+  r = Rng(mix(seed, "dup-plan"))
+  flat = r.chance(0.4)
+  steps = []
+  nsub = 0
+  for _ in range(r.randint(6, 24)):
+    k = r.wpick([(6, "sub"), (4, "unsub"), (4, "raise")])
+    if k == "sub" or nsub == 0:
+      steps.append({"op": "sub", "h": r.wpick([(5, 0), (3, 1), (1, 2)]),
+                    "ev": r.pick("AAB"),
+                    "prio": 0 if flat else r.pick([0, 0, 0, 5, 5, -1]),
+                    "once": r.chance(0.1)})
+      nsub += 1
+    elif k == "unsub":
+      steps.append({"op": "unsub", "h": r.randrange(3), "ev": r.pick("AAB"),
+                    "which": r.randrange(nsub),
+                    "form": r.wpick([(4, "handler_type"), (3, "handler"),
+                                     (2, "eid"), (2, "tuple"),
+                                     (1, "eid_type")])})
+    else:
+      steps.append({"op": "raise", "ev": r.pick("AAB"),
+                    "halt": r.chance(0.1)})
+  return {"prop": PROP, "seed": seed, "cfg": {"dup_mode": True, "flat": flat},
+          "handlers": [], "steps": steps}
+
+
+def _run_dup(plan):
+  from pox.lib.revent import revent as R
+
+  class EvA(R.Event):
+    pass
+
+  class EvB(R.Event):
+    pass
+  EV = {"A": EvA, "B": EvB}
+
+  class Src(R.EventMixin):
+    _eventMixin_events = set([EvA, EvB])
+  src = Src()
+  log = []
+  inv = []
+  halting = [False]
+
+  def mk(h):
+    def f(event):
+      inv.append(h)
+      if halting[0] and h == 0:
+        return R.EventHalt
+    f.__name__ = "h%d" % h
+    return f
+  fn = [mk(h) for h in range(3)]
+  model = {"A": [], "B": []}      # entries: dict(prio, seq, h, eid, once)
+  subs = []                       # every subscription ever made, in order
+  seq = [0]
+  viol = [None]
+  probes = {"dup_mode": 1}
+
+  def fail(vc, det):
+    if viol[0] is None:
+      viol[0] = (vc, det)
+
+  def order(ev):
+    return sorted(model[ev], key=lambda e: (-e["prio"], e["seq"]))
+
+  for i, st in enumerate(plan["steps"]):
+    if viol[0] is not None:
+      break
+    op = st["op"]
+    if op == "sub":
+      kw = {}
+      if st["prio"]:
+        kw["priority"] = st["prio"]
+      if st.get("once"):
+        kw["once"] = True
+      t, eid = src.addListener(EV[st["ev"]], fn[st["h"]], **kw)
+      seq[0] += 1
+      e = {"prio": st["prio"], "seq": seq[0], "h": st["h"], "eid": eid,
+           "once": bool(st.get("once")), "ev": st["ev"]}
+      if any(x["h"] == st["h"] for x in model[st["ev"]]):
+        probes["same_handler_subscribed_again"] = \
+            probes.get("same_handler_subscribed_again", 0) + 1
+      model[st["ev"]].append(e)
+      subs.append(e)
+      log.append(("sub", st["h"], st["ev"], st["prio"]))
+    elif op == "unsub":
+      form = st["form"]
+      if form == "handler":
+        src.removeListener(fn[st["h"]])
+        for ev in model:
+          model[ev] = [x for x in model[ev] if x["h"] != st["h"]]
+      elif form == "handler_type":
+        if not src._eventMixin_handlers.get(EV[st["ev"]]):
+          continue      # (a type that never had a listener: not exercised)
+        n = len([x for x in model[st["ev"]] if x["h"] == st["h"]])
+        if n >= 2:
+          probes["typed_removal_of_duplicates"] = \
+              probes.get("typed_removal_of_duplicates", 0) + 1
+        src.removeListener(fn[st["h"]], EV[st["ev"]])
+        model[st["ev"]] = [x for x in model[st["ev"]] if x["h"] != st["h"]]
+      else:
+        e = subs[st["which"] % len(subs)]
+        if form == "eid":
+          src.removeListener(e["eid"])
+        elif form == "tuple":
+          src.removeListener((EV[e["ev"]], e["eid"]))
+        else:
+          src.removeListener(e["eid"], EV[e["ev"]])
+        model[e["ev"]] = [x for x in model[e["ev"]] if x is not e]
+      log.append(("unsub", form, st["h"], st["ev"]))
+    else:
+      want = order(st["ev"])
+      halting[0] = bool(st.get("halt"))
+      del inv[:]
+      try:
+        src.raiseEvent(EV[st["ev"]])
+      except Exception as e:
+        fail("dup/raise-raised", "%s: %s" % (type(e).__name__, e))
+        break
+      exp = []
+      for e in want:
+        exp.append(e["h"])
+        if e["once"]:
+          model[st["ev"]] = [x for x in model[st["ev"]] if x is not e]
+        if halting[0] and e["h"] == 0:
+          break
+      if inv != exp:
+        fail("dup/invocations", "step %d: raising Ev%s invoked handlers %r, "
+             "the subscriptions at that moment call for %r"
+             % (i, st["ev"], list(inv), exp))
+      log.append(("raise", st["ev"], list(inv)))
+    have = src._eventMixin_get_listener_count()
+    wantn = len(model["A"]) + len(model["B"])
+    if viol[0] is None and have != wantn:
+      fail("dup/listener-count", "after step %d (%s): %d listeners, %d "
+           "subscriptions are live" % (i, op, have, wantn))
+  res = {"verdict": "ok"}
+  if viol[0] is not None:
+    res.update(verdict="violation", vclass=viol[0][0], detail=viol[0][1])
+  res["digest"] = hashlib.sha1(
+      json.dumps(log, sort_keys=True).encode()).hexdigest()[:16]
+  res["stats"] = {}
+  res["probes"] = probes
+  res["nontrivial"] = len(log) >= 4
+  res["sim_time"] = 0.0
+  res["steps"] = len(plan["steps"])
+  res["known"] = []
+  return res
+
+
+_gen_main, _run_main, _hint_main = gen_plan, run_plan, minimise_hint
+
+
+def gen_plan(seed, tier):           # noqa: F811
+  if Rng(mix(seed, "dup")).chance(0.08):
+    return _gen_dup(seed)
+  return _gen_main(seed, tier)
+
+
+def run_plan(plan):                 # noqa: F811
+  if plan.get("cfg", {}).get("dup_mode"):
+    return _run_dup(plan)
+  return _run_main(plan)
+
+
+def minimise_hint(plan):            # noqa: F811
+  if plan.get("cfg", {}).get("dup_mode"):
+    return []
+  return _hint_main(plan)
